@@ -33,7 +33,7 @@ ASSUMPTIONS = [
     "attrs of percentile results are not asserted (built on stack, see DESIGN 6.8)",
 ]
 MANDATORY = ["axis:name", "axis:pos", "axis:negpos", "axis:None", "axis:tuple", "axis:tuple-all", "skipna:True", "nan:whole-fibre", "nan:all",
-             "nan:sparse", "vk:i", "vk:b", "result:single-element", "percentile:list", "percentile:scalar", "labels:unsorted", "values:inf", "dtype:float32", "axis:tuple-of-one", "dtype-checked:b->i", "dtype-checked:i->f", "dtype-checked:f->f", "dtype-checked:b->b"]
+             "nan:sparse", "vk:i", "vk:b", "result:single-element", "percentile:list", "percentile:scalar", "labels:unsorted", "values:inf", "dtype:float32", "percentile:extreme-of-int-data", "axis:tuple-of-one", "dtype-checked:b->i", "dtype-checked:i->f", "dtype-checked:f->f", "dtype-checked:b->b"]
 
 REDS = ["sum", "prod", "mean", "var", "std", "min", "max", "ptp", "all", "any", "median"]
 
@@ -136,7 +136,7 @@ def check_reduction(a, spec, name, axis_form, axis_dims, skipna, cl, attrs=None)
         if res.values.size == 1:
             cl.add("result:single-element")
     # "returns NumPy's f over .values": also NumPy's result type (a count of booleans is an integer, the mean of integers a float)
-    if not skipna:
+    if not skipna or _values_from(spec).dtype.kind != "f":       # (integer / boolean data hold no NaN: skipna=True has nothing to skip)
         vals0 = _values_from(spec)
         with np.errstate(all="ignore"), warnings.catch_warnings():
             warnings.simplefilter("ignore")
@@ -397,8 +397,13 @@ def run_pct(case):
         def val(c):
             return float(np.percentile(fibres[tuple(core.canon_label(c[x]) for x in remaining)], q))
         core.expect_array(res, remaining, [labels[dims.index(x)] for x in remaining], val, what, tol=True, sig=sig)
+    # NumPy's percentile is a floating-point number whatever the data (also the 0th and 100th one of integers)
+    npk = np.asarray(np.percentile(core.spec_values(spec), q, axis=ax)).dtype.kind
+    gotk = np.asarray(res.values if isinstance(res, da.DimArray) else res).dtype.kind
+    check(gotk == npk, "result-dtype-kind", {"what": what, "got": gotk, "numpy": npk}, sig)
     core.expect_unchanged(a, snap, what, sig)
-    return {"classes": ["percentile:list" if isinstance(q, list) else "percentile:scalar"], "nontrivial": len(dims) >= 2}
+    return {"classes": ["percentile:list" if isinstance(q, list) else "percentile:scalar"] + (["percentile:extreme-of-int-data"] if spec["vk"] == "i" and q in (0, 100) else []),
+            "nontrivial": len(dims) >= 2}
 
 
 def run_case(case):
